@@ -3,6 +3,7 @@ import PxModel.UpdateBody
 import PxProofs.HexLemmas
 import PxProofs.ChunkCodec
 import PxProofs.BuildHeaders
+import PxProofs.BuildHeaderless
 import PxProofs.RebuildResp
 import PxProofs.UpdateChunked
 import PxProofs.WfMessage
@@ -180,6 +181,17 @@ theorem C15_parse_build_resp (cfg : Cfg) (status : Int) (v : Bytes) (reason : Op
 example : WFRes [72, 84, 84, 80, 47, 49, 46, 49] (some [78, 111, 116, 32, 70, 111, 117, 110, 100])
     [([88], [121, 32, 122])] = true := by decide
 example : WFRes [72] none [] = true ∧ WFRes [72] (some []) [] = true := by decide
+
+/-- **C15 builder → parser, header-less response** (`no_cl = True`, no headers, no body — e.g. the
+    tunnel-established packet): complete at once, no header map, no body, nothing left over.
+    (With `no_cl` and a body the response is delimited by connection close and never completes:
+    outside the property's quantifier.) -/
+theorem C15_parse_build_resp_headerless (cfg : Cfg) (status : Int) (v : Bytes) (reason : Option Bytes)
+    (hv : plainTok v = true) (hr : reasonOK reason = true) :
+    ∃ r, parse cfg (init .response) (buildResponse status v reason [] none false true) = .ok r ∧
+      r.state = .complete ∧ r.version = some v ∧ r.code = some (intToDec status) ∧
+      r.reason = reasonSeen reason ∧ r.headers = none ∧ r.body = none ∧ r.buffer = none :=
+  parse_build_resp_headerless cfg status v reason hv hr
 
 /-! ## parsed message → rebuild → parser -/
 
